@@ -65,7 +65,8 @@ Inductive jexpr :=
 | JENeg (a : jexpr)                            (* (-(a)) *)
 | JENot (a : jexpr)                            (* !(a) *)
 | JECond (c a d : jexpr)                       (* ((c) ?a:d) *)
-| JEElvis (a c : jexpr).                       (* ((a) != null ? a : c) *)
+| JEElvis (a c : jexpr)                        (* ((a) != null ? a : c) *)
+| JEEscapeHtml (a : jexpr).                    (* soy.$$escapeHtml(a) *)
 
 Definition jbin_sym (o : jbin) : bstr :=
   match o with
@@ -95,6 +96,7 @@ Fixpoint jprint (e : jexpr) : list chunk :=
   | JENot a => [CText t_not_open] ++ jprint a ++ [CText t_rpar]
   | JECond c a d => [CText t_op_open] ++ jprint c ++ [CText t_tern1] ++ jprint a ++ [CText t_colon] ++ jprint d ++ [CText t_rpar]
   | JEElvis a c => [CText t_op_open] ++ jprint a ++ [CText t_elvis1] ++ jprint a ++ [CText t_elvis2] ++ jprint c ++ [CText t_rpar]
+  | JEEscapeHtml a => [CText (directive_js n_escapeHtml); CText t_lpar] ++ jprint a ++ [CText t_rpar]
   end.
 
 (* ---- semantics ---- *)
@@ -166,6 +168,32 @@ Definition js_binop (o : jbin) (x y : jval) : outcome jval :=
   | JAnd | JOr => OutOfModel       (* short-circuit: handled by js_eval *)
   end.
 
+(* ToString on the values a print of the subset can have *)
+Definition js_tostring (v : jval) : option bstr :=
+  match v with
+  | JStr s => Some s
+  | JNum z => Some (dec_of_Z z)
+  | JBool true => Some t_true
+  | JBool false => Some t_false
+  | JNull => Some t_null
+  | _ => None
+  end.
+
+(* soy.esc.$$escapeHtmlHelper: String(value).replace(/[\x00\x22\x26\x27\x3c\x3e]/g, table) *)
+Definition js_html_entity (c : N) : option bstr :=
+  if c =? 0 then Some [38; 35; 48; 59]                       (* &#0; *)
+  else if c =? 34 then Some [38; 113; 117; 111; 116; 59]     (* &quot; *)
+  else if c =? 38 then Some [38; 97; 109; 112; 59]           (* &amp; *)
+  else if c =? 39 then Some [38; 35; 51; 57; 59]             (* &#39; *)
+  else if c =? 60 then Some [38; 108; 116; 59]               (* &lt; *)
+  else if c =? 62 then Some [38; 103; 116; 59]               (* &gt; *)
+  else None.
+Fixpoint js_escape_html (s : bstr) : bstr :=
+  match s with
+  | [] => []
+  | c :: r => match js_html_entity c with Some e => e ++ js_escape_html r | None => c :: js_escape_html r end
+  end.
+
 Fixpoint js_eval (env : jenv) (e : jexpr) : outcome jval :=
   match e with
   | JENull => Ok JNull
@@ -185,6 +213,7 @@ Fixpoint js_eval (env : jenv) (e : jexpr) : outcome jval :=
   | JENot a => v <- js_eval env a ;; Ok (JBool (negb (js_truthy v)))
   | JECond c a d => v <- js_eval env c ;; if js_truthy v then js_eval env a else js_eval env d
   | JEElvis a c => v <- js_eval env a ;; if js_nullish v then js_eval env c else js_eval env a
+  | JEEscapeHtml a => v <- js_eval env a ;; match js_tostring v with Some s => Ok (JStr (js_escape_html s)) | None => OutOfModel end
   end.
 
 (* ---- the Soy side of the common subset ---- *)
@@ -336,3 +365,33 @@ Section Ceval.
     | CTern c a d => match ceval c with Some v => if truthy v then ceval a else ceval d | None => None end
     end.
 End Ceval.
+
+(* ---- one statement: buf += e; ---- *)
+(* the text the statement appends to the buffer variable (which must hold a string) *)
+Definition js_append (env : jenv) (buf : bstr) (e : jexpr) : outcome (bstr * jenv) :=
+  v <- js_eval env e ;;
+  match js_tostring v, assoc_s buf (je_vars env) with
+  | Some s, Some (JStr old) => Ok (s, {| je_vars := aset (je_vars env) buf (JStr (old ++ s)); je_data := je_data env |})
+  | _, _ => OutOfModel
+  end.
+(* a value whose printed form both backends define the same way *)
+Definition printable_scalar (v : value) : bool :=
+  match v with VStr _ | VInt _ | VBool _ | VNull => true | _ => false end.
+
+(* ---- {print e|d1|d2...} with the directives id, noAutoescape, escapeHtml ---- *)
+Inductive pdir := PId | PNoAutoescape | PEscapeHtml.
+Definition pdir_name (d : pdir) : bstr :=
+  match d with PId => n_id | PNoAutoescape => n_noAutoescape | PEscapeHtml => n_escapeHtml end.
+Definition pdir_node (d : pdir) : node := NDirective 0 (pdir_name d) [].
+(* the JavaScript expression printed: one soy.$$escapeHtml per explicit |escapeHtml (the first
+   directive innermost), and one more when autoescaping is on and no directive cancels it
+   (all three directives of the subset cancel it) *)
+Fixpoint wrap_escapes (ds : list pdir) (e : jexpr) : jexpr :=
+  match ds with
+  | [] => e
+  | PEscapeHtml :: r => wrap_escapes r (JEEscapeHtml e)
+  | _ :: r => wrap_escapes r e
+  end.
+Definition cgen_print_expr (mode : N) (ds : list pdir) (e : jexpr) : jexpr :=
+  let x := wrap_escapes ds e in
+  match ds with [] => if mode =? 2 then x else JEEscapeHtml x | _ => x end.
